@@ -298,6 +298,20 @@ def newControllerRevision (c : Cfg) (parent patch : J) (name : String) : Except 
     [("labels", .obj labels), ("ownerReferences", .arr [(controllerRefTo (getAPIVersion parent) (getKind parent) parent).toJ])]
   pure (.obj [("apiVersion", .str "metacontroller.k8s.io/v1alpha1"), ("kind", .str "ControllerRevision"), ("metadata", .obj md), ("parentPatch", patch)])
 
+/-- `addGeneratedSelectorLabel`: with selector generation every desired child gets the controller-uid
+    label before the rollout compares it with observed children (malformed labels are left alone) -/
+def addUidLabel (uid : String) (o : J) : J :=
+  match nestedField o ["metadata", "labels"] with
+  | .ok none => setStringMapAt o ["metadata", "labels"] (some [("controller-uid", .str uid)])
+  | .ok (some (.obj kvs)) =>
+      if kvs.all (fun kv => kv.2.str?.isSome) && !hasKey "controller-uid" kvs then
+        setStringMapAt o ["metadata", "labels"] (some (setKey "controller-uid" (.str uid) kvs))
+      else o
+  | _ => o
+
+def labelResp (c : Cfg) (latestParent : J) (resp : CompResp) : CompResp :=
+  if c.generateSelector then { resp with children := resp.children.map (Option.map (addUidLabel (getUID latestParent))) } else resp
+
 /-- hook calls for all parent revisions; all are made, the first error (in list order) is reported -/
 def callHooks (c : Cfg) (latestParent : J) (observed related : ObjMap) : List (J × J × List CGroup) → Prog (List (Except Err PRev))
   | [] => pure []
@@ -305,8 +319,10 @@ def callHooks (c : Cfg) (latestParent : J) (observed related : ObjMap) : List (J
       let r ← callHookComposite c p observed related
       let rs ← callHooks c latestParent observed related rest
       let x : Except Err PRev := match r with
-        | .ok resp => .ok { parent := p, revision := rev, children := ch, resp,
-                            desired := (resp.children.filterMap id).foldl (fun acc o => acc.insertRelative (getNamespace latestParent) o) [] }
+        | .ok resp0 =>
+            let resp := labelResp c latestParent resp0
+            .ok { parent := p, revision := rev, children := ch, resp,
+                  desired := (resp.children.filterMap id).foldl (fun acc o => acc.insertRelative (getNamespace latestParent) o) [] }
         | .error e => .error e
       pure (x :: rs)
 
